@@ -61,9 +61,14 @@ def gen_ff(g, nblocks=None, uniform_nrexcl=True):
         for Y in blocks:
             lx = X["atoms"][-1]["name"]
             fy = Y["atoms"][0]["name"]
-            sec = {"bonds": [{"atoms": [lx, ">" + fy],
-                              "params": ["1", str(round(g.uniform(0.3, 0.5), 3)), str(g.choice([3000, 4000, 6000]))],
-                              "meta": {}}]}
+            if g.random() < 0.25:
+                # residues joined by a constraint only (like the CYS-CYS bridge of the shipped libraries)
+                sec = {"constraints": [{"atoms": [lx, ">" + fy], "params": ["1", str(round(g.uniform(0.3, 0.5), 3))],
+                                        "meta": {}}]}
+            else:
+                sec = {"bonds": [{"atoms": [lx, ">" + fy],
+                                  "params": ["1", str(round(g.uniform(0.3, 0.5), 3)), str(g.choice([3000, 4000, 6000]))],
+                                  "meta": {}}]}
             extra = {}
             if len(X["atoms"]) >= 2 and g.random() < 0.6:
                 px = X["atoms"][-2]["name"]
